@@ -79,6 +79,12 @@ func (s *httpProxy) Handle(ctx context.Context, conn net.Conn) error {
 			return err
 		}
 
+		// relay the request as it came: Request.Write would add a
+		// User-Agent of its own when the client sent none
+		if _, ok := req.Header["User-Agent"]; !ok {
+			req.Header.Set("User-Agent", "")
+		}
+
 		reqBody := &bytes.Buffer{}
 
 		dsw := io.MultiWriter(conn2, reqBody)
